@@ -47,8 +47,10 @@ type c19Input struct {
 	Seq       bool       `json:"seq"`       // wait for the delivery of every change before the next write
 	PullMs    int        `json:"pullMs"`    // pullInterval
 	ConsumeUs int        `json:"consumeUs"` // consumer sleeps this long after every snapshot
-	Fault     string     `json:"fault"`     // "" | "restart" (stop/start the etcd server in the middle; thorough only)
+	Fault     string     `json:"fault"`     // "" | "restart": stop the etcd server before write faultAt, keep it down for outageMs, start it again
 	FaultAt   int        `json:"faultAt"`
+	OutageMs  int        `json:"outageMs"`  // how long the server stays down
+	ReqMs     int        `json:"reqMs"`     // > 0: the syncer's cluster handle uses this request timeout (so that pulls FAIL during the outage)
 }
 
 type c19Obs struct {
@@ -154,9 +156,6 @@ func c19Exec(raw json.RawMessage) interface{} {
 	c := c19Cluster
 	tStart := time.Now()
 	obs := c19Obs{Snaps: [][][2]string{}, Final: [][2]string{}}
-	if in.Fault != "" && !verifh.Env().Thorough() {
-		in.Fault = ""
-	}
 	root := fmt.Sprintf("/verif/c19/%d/", atomic.AddInt64(&c19Root, 1))
 	prefix := in.Mode == "prefix" || in.Mode == "rawprefix"
 	if in.PullMs <= 0 {
@@ -171,7 +170,17 @@ func c19Exec(raw json.RawMessage) interface{} {
 		c19ApplyLocal(local, w)
 	}
 
-	sy, err := c.Syncer(time.Duration(in.PullMs) * time.Millisecond)
+	sc := c
+	if in.ReqMs > 0 {
+		// same client, own request timeout: what a cluster configured with a short
+		// cluster-request-timeout does; only the syncer's pulls go through it
+		cl, cerr := c.getClient()
+		if cerr != nil {
+			return map[string]string{"error": "client"}
+		}
+		sc = &cluster{opt: c.opt, requestTimeout: time.Duration(in.ReqMs) * time.Millisecond, layout: c.layout, client: cl, done: make(chan struct{})}
+	}
+	sy, err := sc.Syncer(time.Duration(in.PullMs) * time.Millisecond)
 	if err != nil {
 		return map[string]string{"error": "syncer"}
 	}
@@ -285,7 +294,7 @@ func c19Exec(raw json.RawMessage) interface{} {
 	}
 	for i, w := range in.Writes {
 		if in.Fault == "restart" && i == in.FaultAt {
-			obs.FaultDone = c19Restart(c)
+			obs.FaultDone = c19Restart(c, time.Duration(in.OutageMs)*time.Millisecond)
 		}
 		if w.PauseUs > 0 {
 			time.Sleep(time.Duration(w.PauseUs) * time.Microsecond)
@@ -338,9 +347,12 @@ func c19Exec(raw json.RawMessage) interface{} {
 }
 
 // c19Restart stops and restarts the embedded etcd server (same data directory, same ports).
-func c19Restart(c *cluster) bool {
+func c19Restart(c *cluster, outage time.Duration) bool {
 	c.closeServer()
-	time.Sleep(20 * time.Millisecond)
+	if outage < 20*time.Millisecond {
+		outage = 20 * time.Millisecond
+	}
+	time.Sleep(outage)
 	done, timeout, err := c.startServer()
 	if err != nil {
 		return false
@@ -351,7 +363,7 @@ func c19Restart(c *cluster) bool {
 		return false
 	}
 	// wait until the client talks to the server again
-	for i := 0; i < 200; i++ {
+	for i := 0; i < 1200; i++ {
 		if _, err := c.Get("/verif/ping"); err == nil {
 			return true
 		}
@@ -411,6 +423,27 @@ func c19GenWrite(r *verifh.Rand, local map[string]string) c19Write {
 	return w
 }
 
+// c19GenOutage: a single-key (or prefix) syncer on an EXISTING key while the server is down for
+// longer than the syncer's request timeout: its pulls fail during the outage.
+func c19GenOutage(r *verifh.Rand) interface{} {
+	in := c19Input{Mode: r.Pick("sync", "raw", "sync", "raw", "prefix", "rawprefix"), PullMs: r.PickInt(20, 50), ReqMs: r.PickInt(200, 300)}
+	in.Key = "p/a"
+	if in.Mode == "prefix" || in.Mode == "rawprefix" {
+		in.Key = "p/"
+	}
+	in.Init = []c19Write{{Subs: []c19Sub{{Op: "put", K: "p/a", V: "1"}}}}
+	vals := []string{"2", "3", "1", "", "2"}
+	for k, n := 0, r.Range(1, 4); k < n; k++ {
+		w := c19Write{Subs: []c19Sub{{Op: "put", K: r.Pick("p/a", "p/a", "q/a"), V: vals[r.Intn(len(vals))]}}}
+		in.Writes = append(in.Writes, w)
+	}
+	// the write after the outage may leave the value unchanged: nothing may be delivered then
+	in.Fault = "restart"
+	in.FaultAt = r.Intn(len(in.Writes))
+	in.OutageMs = in.ReqMs*3 + r.Range(0, 300)
+	return in
+}
+
 func c19Gen(r *verifh.Rand, i int) interface{} {
 	in := c19Input{}
 	in.Mode = r.Pick("prefix", "prefix", "rawprefix", "sync", "raw")
@@ -459,6 +492,13 @@ func c19Gen(r *verifh.Rand, i int) interface{} {
 		in.Fault = "restart"
 		in.FaultAt = r.Intn(len(in.Writes))
 		in.Seq = false
+	}
+	den := 110
+	if verifh.Env().Thorough() {
+		den = 40
+	}
+	if r.Bool(1, den) {
+		return c19GenOutage(r)
 	}
 	return in
 }
@@ -590,6 +630,136 @@ func c19EqGen(r *verifh.Rand, i int) interface{} {
 
 func TestVerifC19Eq(t *testing.T) {
 	verifh.Run(t, c19EqGen, c19EqExec, 0)
+}
+
+// ---------------------------------------------------------------------------
+// the data path below syncer.pull: GetRaw / Get / GetRawPrefix / GetPrefix result mapping
+// (found / not found / error). Errors are produced by a cluster handle whose request
+// timeout is 1 ns (context deadline exceeded before the request leaves).
+
+type c19Call struct {
+	Fn   string `json:"fn"` // GetRaw | Get | GetRawPrefix | GetPrefix | pull | pullPrefix
+	Key  string `json:"key"`
+	Fail bool   `json:"fail"`
+}
+
+type c19OpsInput struct {
+	Store [][2]string `json:"store"`
+	Calls []c19Call   `json:"calls"`
+}
+
+type c19CallRes struct {
+	Err bool        `json:"err"`
+	Nil bool        `json:"nil"`
+	Kvs [][2]string `json:"kvs"`
+}
+
+func c19OpsExec(raw json.RawMessage) interface{} {
+	var in c19OpsInput
+	if err := json.Unmarshal(raw, &in); err != nil {
+		return map[string]string{"error": "bad-input"}
+	}
+	c := c19Cluster
+	cl, err := c.getClient()
+	if err != nil {
+		return map[string]string{"error": "client"}
+	}
+	bad := &cluster{opt: c.opt, requestTimeout: time.Nanosecond, layout: c.layout, client: cl, done: make(chan struct{})}
+	root := fmt.Sprintf("/verif/c19ops/%d/", atomic.AddInt64(&c19Root, 1))
+	for _, kv := range in.Store {
+		if err := c.Put(root+kv[0], kv[1]); err != nil {
+			return map[string]string{"error": "put"}
+		}
+	}
+	out := []c19CallRes{}
+	for _, call := range in.Calls {
+		h := c
+		if call.Fail {
+			h = bad
+		}
+		res := c19CallRes{Kvs: [][2]string{}}
+		switch call.Fn {
+		case "GetRaw":
+			kv, err := h.GetRaw(root + call.Key)
+			res.Err, res.Nil = err != nil, kv == nil
+			if kv != nil {
+				res.Kvs = append(res.Kvs, [2]string{strings.TrimPrefix(string(kv.Key), root), string(kv.Value)})
+			}
+		case "Get":
+			v, err := h.Get(root + call.Key)
+			res.Err, res.Nil = err != nil, v == nil
+			if v != nil {
+				res.Kvs = append(res.Kvs, [2]string{call.Key, *v})
+			}
+		case "GetRawPrefix":
+			m, err := h.GetRawPrefix(root + call.Key)
+			res.Err, res.Nil = err != nil, m == nil
+			mm := map[string]string{}
+			for k, kv := range m {
+				if kv == nil || string(kv.Key) != k {
+					mm[k] = "<bad-entry>"
+				} else {
+					mm[k] = string(kv.Value)
+				}
+			}
+			res.Kvs = c19Canon(mm, root)
+		case "GetPrefix":
+			m, err := h.GetPrefix(root + call.Key)
+			res.Err, res.Nil = err != nil, m == nil
+			res.Kvs = c19Canon(m, root)
+		case "pull", "pullPrefix":
+			sy := &syncer{cluster: h, client: cl, pullInterval: time.Second, done: make(chan struct{})}
+			m, err := sy.pull(root+call.Key, call.Fn == "pullPrefix")
+			res.Err, res.Nil = err != nil, m == nil
+			mm := map[string]string{}
+			for k, kv := range m {
+				if kv == nil || string(kv.Key) != k {
+					mm[k] = "<bad-entry>"
+				} else {
+					mm[k] = string(kv.Value)
+				}
+			}
+			res.Kvs = c19Canon(mm, root)
+		}
+		out = append(out, res)
+	}
+	c.DeletePrefix(root)
+	return map[string]interface{}{"res": out}
+}
+
+func c19OpsGen(r *verifh.Rand, i int) interface{} {
+	in := c19OpsInput{Store: [][2]string{}}
+	for _, k := range c19Keys {
+		if r.Bool(1, 2) {
+			in.Store = append(in.Store, [2]string{k, r.Pick("1", "2", "")})
+		}
+	}
+	for k, n := 0, r.Range(2, 8); k < n; k++ {
+		in.Calls = append(in.Calls, c19Call{Fn: r.Pick("GetRaw", "Get", "GetRawPrefix", "GetPrefix", "pull", "pullPrefix"),
+			Key: r.Pick("p/a", "p", "p/", "pp", "q", "zz", "p/a/x"), Fail: r.Bool(1, 3)})
+	}
+	return in
+}
+
+func TestVerifC19Ops(t *testing.T) {
+	if verifh.Env().Out == "" {
+		t.Skip("VERIF_OUT not set")
+	}
+	dir, err := ioutil.TempDir("", "verif-c19ops")
+	if err != nil {
+		t.Fatal(err)
+	}
+	defer os.RemoveAll(dir)
+	c19Cluster = CreateClusterForTest(dir).(*cluster)
+	if _, err := c19Cluster.getClient(); err != nil {
+		t.Fatalf("client: %v", err)
+	}
+	defer func() {
+		wg := &sync.WaitGroup{}
+		wg.Add(1)
+		c19Cluster.Close(wg)
+	}()
+	verifh.Run(t, c19OpsGen, c19OpsExec, 300*time.Second)
 }
 
 var _ = clientv3.WithPrefix
